@@ -208,3 +208,25 @@ def run(ctx):
                                       "events": [t["op"] for t in tr][:200], "rejected_at": matched})
     w = worlds[len(worlds) // 2]
     ctx.sample({"scenario": ws[len(worlds) // 2], "schedule": w.schedule[:40], "events": [dict(e) for e in w.events][:20]})
+    # fidelity of the shims: the same observer specification applied to executions with REAL processes and files
+    from adapters import realstorage
+    rtraces, rmeta = [], []
+    for s in realstorage.scenarios(quick, rnd):
+        ev, fin = realstorage.run_scenario(s)
+        exc = next((e for e in ev if e["op"] == "harness_exc"), None)
+        if exc is not None or not fin:
+            ev, fin = realstorage.run_scenario(s, 120.0)
+            exc = next((e for e in ev if e["op"] == "harness_exc"), None)
+        rtraces.append(realstorage.to_trace(ev))
+        rmeta.append((s, fin, exc))
+    rv = tracecheck.validate(OBS, model.constants_block({"MaxId": 1}), rtraces, ctx, "C14_real")
+    for (s, fin, exc), tr, (matched, total) in zip(rmeta, rtraces, rv):
+        ctx.traces += 1
+        ctx.case(("C14real", json.dumps(s, sort_keys=True)))
+        if matched != total or not fin or exc is not None:
+            evx = tr[matched]["op"] if matched < total else None
+            ctx.violation({"kind": "realrun", "event": evx and evx["op"], "finished": fin},
+                          "C14 (real processes): scenario %s: rejected at event %d %s%s%s" % (
+                              s["name"], matched, json.dumps(evx), "" if fin else " (did not finish)", " %s" % exc if exc else ""),
+                          {"engine": "realrun", "scenario": s, "events": [t["op"] for t in tr][:300], "rejected_at": matched})
+    ctx.extra["real_process_executions"] = {"count": len(rtraces), "events": sum(len(t) for t in rtraces)}
